@@ -42,7 +42,7 @@ use std::time::{Duration, Instant};
 
 const FONT_DIR: &str = "/repo/font-test-data/test_data/ttf";
 const MAX_DEPTH: u32 = 64;
-const TIME_BOUND: Duration = Duration::from_secs(5);
+const TIME_BOUND: Duration = Duration::from_secs(20); // generous: a variant normally takes milliseconds; the bound must not fire under machine load
 const FNV_OFF: u64 = 0xcbf2_9ce4_8422_2325;
 const FNV_PRIME: u64 = 0x0000_0100_0000_01b3;
 
